@@ -15,7 +15,6 @@ from fractions import Fraction
 
 from harness.core import to_dec, to_dec_exact, MachineryError
 
-ELEMENTS = ('C', 'H', 'O', 'N')
 BAR_PER_ATM = 1.01325
 EPS_NEAR = 1e-2          # must equal Eps of Trace_Equilibrium.tla
 THERMDAT = 'pmutt/tests/equilibrium/thermdat_equilibrium_unittest.txt'
@@ -140,7 +139,7 @@ def degeneracy_certificates(rows, fed, R=4):
 # species, networks
 # --------------------------------------------------------------------------
 def nasa_coeffs(rnd, g_target, T):
-    """NASA-7 coefficients (one polynomial for both ranges) whose G/RT at T is g_target."""
+    """NASA-7 coefficients of one polynomial whose G/RT at T is g_target."""
     a1 = round(rnd.uniform(2.5, 12.0), 3)
     a2 = round(rnd.uniform(-2e-3, 6e-3), 6)
     a3 = round(rnd.uniform(-2e-6, 2e-6), 9)
@@ -150,59 +149,246 @@ def nasa_coeffs(rnd, g_target, T):
     return [a1, a2, a3, 0.0, 0.0, a6, a7]
 
 
+THERMO_CLASSES = ('nasa', 'nasa9', 'shomate', 'statmech')
+# molecules ase can build (StatMech needs a geometry): name -> (formula, symmetry number, spin, #vib modes)
+ASE_MOLECULES = {'H2O': ({'H': 2, 'O': 1}, 2, 0.0, 3), 'H2': ({'H': 2}, 2, 0.0, 1),
+                 'O2': ({'O': 2}, 2, 1.0, 1), 'CO': ({'C': 1, 'O': 1}, 1, 0.0, 1),
+                 'CO2': ({'C': 1, 'O': 2}, 2, 0.0, 4), 'CH4': ({'C': 1, 'H': 4}, 12, 0.0, 9),
+                 'NH3': ({'N': 1, 'H': 3}, 3, 0.0, 6), 'N2': ({'N': 2}, 2, 0.0, 1),
+                 'C2H4': ({'C': 2, 'H': 4}, 4, 0.0, 12), 'H2O2': ({'H': 2, 'O': 2}, 2, 0.0, 6)}
+R_J = 8.31446261815324
+KB_EV = 8.617333262e-5
+
+
+def _build_one(s):
+    """One species object from its (JSON-able) description."""
+    els = {k: int(v) for k, v in s['formula'].items() if v}
+    cls = s.get('cls', 'nasa')
+    if cls == 'nasa':
+        from pmutt.empirical.nasa import Nasa
+        kw = {}
+        if s.get('phase') is not None:
+            kw['phase'] = s['phase']
+        return Nasa(name=s['name'], T_low=s.get('T_low', 200.0), T_mid=s.get('T_mid', 1000.0),
+                    T_high=s.get('T_high', 3000.0), a_low=list(s.get('a_low', s.get('a'))),
+                    a_high=list(s.get('a_high', s.get('a'))), elements=els, **kw)
+    if cls == 'nasa9':
+        from pmutt.empirical.nasa import Nasa9, SingleNasa9
+        import numpy as np
+        return Nasa9(name=s['name'], elements=els,
+                     nasas=[SingleNasa9(T_low=200.0, T_high=1000.0, a=np.array(s['a1'], dtype=float)),
+                            SingleNasa9(T_low=1000.0, T_high=3000.0, a=np.array(s['a2'], dtype=float))])
+    if cls == 'shomate':
+        from pmutt.empirical.shomate import Shomate
+        import numpy as np
+        return Shomate(name=s['name'], T_low=200.0, T_high=3000.0, a=np.array(s['a'], dtype=float),
+                       elements=els)
+    if cls == 'statmech':
+        from ase.build import molecule
+        from pmutt.statmech import StatMech, presets
+        return StatMech(name=s['name'], elements=els, potentialenergy=s['E'], spin=s['spin'],
+                        symmetrynumber=s['sym'], atoms=molecule(s['mol']),
+                        vib_wavenumbers=list(s['vib']), **presets['idealgas'])
+    raise MachineryError('unknown thermo class %r' % (cls,))
+
+
 def make_species(spec):
-    from pmutt.empirical.nasa import Nasa
-    out = []
-    for s in spec:
-        out.append(Nasa(name=s['name'], T_low=200.0, T_mid=1000.0, T_high=3000.0,
-                        a_low=list(s['a']), a_high=list(s['a']),
-                        elements={k: v for k, v in s['formula'].items() if v}))
-    return out
+    return [_build_one(s) for s in spec]
 
 
-def random_case(rnd, cid, wellcond=False):
-    nel = rnd.choice([1, 2, 2, 3, 3, 4])
-    els = rnd.sample(ELEMENTS, nel)
-    ns = rnd.randint(2, 6) if wellcond else rnd.randint(2, 12)
+def species_spec(rnd, name, formula, g_target, T, cls='nasa', mol=None, phase='any'):
+    """Description of a species of the given thermo class whose G/RT at T is g_target
+    (the energy-like coefficient of the class is tuned on the real object)."""
+    s = {'name': name, 'formula': dict(formula), 'cls': cls}
+    if cls == 'nasa':
+        active = nasa_coeffs(rnd, g_target, T)
+        variant = rnd.choice(['same', 'distinct', 'distinct'])
+        other = list(active) if variant == 'same' else nasa_coeffs(rnd, g_target + rnd.uniform(-3.0, 3.0), T)
+        s['T_low'] = rnd.choice([200.0, 300.0])
+        s['T_high'] = rnd.choice([2500.0, 3000.0])
+        s['T_mid'] = 1000.0
+        s['a_low'], s['a_high'] = (active, other) if T < 1000.0 else (other, active)
+        s['phase'] = rnd.choice([None, None, 'G', 'gas']) if phase == 'any' else phase
+        key, idx, per = ('a_low' if T < 1000.0 else 'a_high'), 5, T
+    elif cls == 'nasa9':
+        def one():
+            return [0.0, 0.0, round(rnd.uniform(2.5, 10.0), 3), round(rnd.uniform(-1e-3, 4e-3), 6),
+                    round(rnd.uniform(-1e-6, 1e-6), 9), 0.0, 0.0, -1.0e4, round(rnd.uniform(-5.0, 25.0), 3)]
+        s['a1'], s['a2'] = one(), one()
+        key, idx, per = 'a1', 7, T                 # (both intervals are shifted alike below)
+    elif cls == 'shomate':
+        s['a'] = [round(rnd.uniform(20.0, 60.0), 3), round(rnd.uniform(0.0, 20.0), 3),
+                  round(rnd.uniform(-5.0, 8.0), 3), round(rnd.uniform(-3.0, 1.0), 3),
+                  round(rnd.uniform(-0.5, 0.5), 3), -100.0, round(rnd.uniform(180.0, 260.0), 3), -100.0]
+        key, idx, per = 'a', 5, R_J * T / 1000.0
+    elif cls == 'statmech':
+        f, sym, spin, nv = ASE_MOLECULES[mol]
+        s.update({'mol': mol, 'formula': dict(f), 'sym': sym, 'spin': spin, 'E': -10.0,
+                  'vib': [round(rnd.uniform(400.0, 3800.0), 1) for _ in range(nv)]})
+        key, idx, per = 'E', None, KB_EV * T
+    else:
+        raise MachineryError('unknown thermo class %r' % (cls,))
+    for _ in range(3):                           # tune on the real object (linear in the coefficient)
+        g0 = float(_build_one(s).get_GoRT(T=T))
+        d = (g_target - g0) * per
+        if idx is None:
+            s[key] = float('%.12g' % (s[key] + d))
+        else:
+            for kk in ((key, 'a2') if cls == 'nasa9' else (key,)):
+                s[kk] = list(s[kk])
+                s[kk][idx] = float('%.12g' % (s[kk][idx] + d))
+    return s
+
+
+ELEMENTS = ('C', 'H', 'O', 'N', 'S', 'Cl', 'Ar', 'He', 'Si')
+NAME_SUFFIXES = ['(g)', '-a', '_2', '*', "'", '(S)', ' rad', '+', '(2-)', '.x']
+T_VALUES = [300.0, 300.00000000000006, 300.5, 500.0, 999.9999999999999, 1000.0, 1000.0000000000001,
+            1500.0, 2499.9999999999995, 2500.0]
+P_VALUES = [0.01, 0.010000000000000002, 0.1, 1.0, 1.0000000000000002, 10.0, 99.99999999999999, 100.0]
+SPANS = [0.0, 1.0, 5.0, 20.0, 59.99, 60.0]
+FEED_KINDS = ['mixed', 'onehot', 'all', 'tiny', 'int', 'mixed']
+SCALES = [1.0, 1e-3, 1.0, 1e3, 1.0, 1e-6, 1.0, 1e6]
+NUM_TYPES = ['float', 'int', 'np.float64', 'np.int64', 'float']
+
+
+def typed(x, t):
+    """The number x as the Python / numpy type named t (ints only for integral values)."""
+    import numpy as np
+    if t in ('int', 'np.int64') and float(x) != int(x):
+        t = 'float' if t == 'int' else 'np.float64'
+    return {'float': float, 'int': int, 'np.float64': np.float64, 'np.int64': np.int64}[t](x)
+
+
+def hill(f):
+    return ''.join('%s%s' % (e, '' if f[e] == 1 else f[e]) for e in sorted(f) if f[e])
+
+
+def _formulas(rnd, els, ns):
     forms = []
-    for _ in range(400):
-        f = {e: rnd.choice([0, 0, 1, 1, 2, 3, 4]) for e in els}
+    top = 4 if len(els) > 1 else max(4, ns)
+    for _ in range(2000):
+        f = {e: rnd.choice([0, 0, 1, 1, 2, 3, 4] if len(els) > 1 else list(range(1, top + 1))) for e in els}
         if sum(f.values()) and f not in forms:
             forms.append(f)
         if len(forms) == ns:
             break
-    # every element must occur in some species
     for e in els:
         if not any(f[e] for f in forms):
             forms[rnd.randrange(len(forms))][e] = 1
-    T = rnd.choice([300.0, 500.0, 1000.0, 1500.0, 2500.0, round(rnd.uniform(300.0, 2500.0), 1)])
-    Ps = [rnd.choice([0.01, 1.0, 100.0, float('%.3g' % 10 ** rnd.uniform(-2, 2))])]
-    if rnd.random() < 0.3:
-        Ps.append(rnd.choice([0.01, 0.1, 1.0, 10.0, 100.0]))
-    span = rnd.choice([0.5, 1.0, 3.0]) if wellcond else rnd.choice([1.0, 5.0, 20.0, 60.0])
-    base = rnd.uniform(-100.0, 40.0)
-    spec = []
-    for i, f in enumerate(forms):
-        g = base + rnd.uniform(0.0, span) * (1.0 - 1e-9)
-        spec.append({'name': 'S%d' % i, 'formula': f, 'a': nasa_coeffs(rnd, g, T)})
-    if wellcond:
+    return forms
+
+
+def _feed(rnd, forms, els, kind):
+    n = len(forms)
+    if kind == 'all':
         feed = [rnd.choice([0.5, 1.0, 1.5, 2.0]) for _ in forms]
+    elif kind == 'int':
+        feed = [float(rnd.choice([0, 1, 1, 2, 3])) for _ in forms]
+    elif kind == 'onehot':
+        feed = [0.0] * n
+        full = [i for i in range(n) if all(forms[i][e] for e in els)]
+        if full:
+            feed[rnd.choice(full)] = rnd.choice([1.0, 2.0, 0.7])
     else:
         feed = [rnd.choice([0.0, 0.0, 1.0, 0.5, 2.0, round(rnd.uniform(0.05, 3.0), 2)]) for _ in forms]
-        for e in els:
-            if not any(feed[i] > 0 and forms[i][e] for i in range(len(forms))):
-                cand = [i for i in range(len(forms)) if forms[i][e]]
-                feed[rnd.choice(cand)] += 1.0
+    for e in els:                                      # the feed must contain every element
+        if not any(feed[i] > 0 and forms[i][e] for i in range(n)):
+            cand = [i for i in range(n) if forms[i][e]]
+            feed[rnd.choice(cand)] += 1.0
+    if kind == 'tiny':
+        zero = [i for i in range(n) if feed[i] == 0.0] or list(range(n))
+        feed[rnd.choice(zero)] = 1e-12
+    return feed
+
+
+def random_case(rnd, cid, wellcond=False, k=0):
+    """Stratified by the running index k: species count, element count, name style, feed
+    class, amount scale and number types cycle through their whole ranges."""
+    nel = 1 + k % 4
+    ns = 2 + k % 5 if wellcond else 2 + k % 11
+    els = rnd.sample(ELEMENTS, nel)
+    if k % 3 == 0 and not any(len(e) == 2 for e in els):
+        els[rnd.randrange(nel)] = rnd.choice([e for e in ELEMENTS if len(e) == 2 and e not in els])
+    forms = _formulas(rnd, els, ns)
+    T = T_VALUES[(k // 2) % len(T_VALUES)] if k % 2 == 0 else round(rnd.uniform(300.0, 2500.0), 1)
+    Ps = [P_VALUES[(k // 2) % len(P_VALUES)] if k % 3 else float('%.3g' % 10 ** rnd.uniform(-2, 2))]
+    if k % 4 == 1:
+        Ps.append(rnd.choice(P_VALUES))
+    span = [0.0, 0.5, 1.0, 3.0][k % 4] if wellcond else SPANS[k % len(SPANS)]
+    base = rnd.uniform(-100.0, 40.0)
+    style = k % 3
+    spec = []
+    for i, f in enumerate(forms):
+        # the two ends of the span are realised by the first two species
+        g = base + (0.0 if i == 0 else span * (1.0 - 1e-9) if i == 1 else rnd.uniform(0.0, span) * (1.0 - 1e-9))
+        name = 'S%d' % i if style == 0 else hill(f) if style == 1 else \
+            hill(f) + NAME_SUFFIXES[(k + i) % len(NAME_SUFFIXES)]
+        spec.append(species_spec(rnd, name, f, g, T, 'nasa', phase='G' if k % 4 == 2 else 'any'))
+    fkind = 'all' if wellcond and k % 3 else FEED_KINDS[k % len(FEED_KINDS)]
+    feed = _feed(rnd, forms, els, fkind)
+    scale = SCALES[k % len(SCALES)]
+    feed = [x if x == 1e-12 else float('%.6g' % (x * scale)) for x in feed]
+    points = [[T, P] for P in Ps]
+    if k % 2 == 1:                                     # another temperature on the same object
+        points.append([rnd.choice([x for x in (400.0, 800.0, 1200.0, 2000.0) if abs(x - T) > 50.0]),
+                       rnd.choice(P_VALUES)])
     perm = list(range(len(forms)))
     rnd.shuffle(perm)
     return {'cid': cid, 'kind': 'wellcond' if wellcond else 'rand', 'elements': els,
-            'species': spec, 'feed': feed, 'points': [[T, P] for P in Ps], 'perm': perm}
+            'species': spec, 'feed': feed, 'points': points, 'perm': perm,
+            'feedkind': fkind, 'scale': scale, 'namestyle': style,
+            'types': {'T': NUM_TYPES[k % 5], 'P': NUM_TYPES[(k // 5) % 5],
+                      'feed': NUM_TYPES[(k // 3) % 5]}}
+
+
+def inert_case(rnd, cid, k=0):
+    """A reacting sub-network whose reactions change the number of moles, plus an inert
+    diluent that is the only carrier of its element(s), fed in a non-zero amount."""
+    a, b, x = rnd.sample(['C', 'H', 'O', 'N', 'S'], 3)
+    dil = [('Ar', {'Ar': 1}), ('He', {'He': 1}), (x + '2', {x: 2}), ('Ar2' + x, {'Ar': 2, x: 1})][k % 4]
+    forms = [{a: 1}, {a: 2}, {a: 1, b: 1}, {b: 2}, {a: 2, b: 2}][:3 + k % 3]
+    if not any(f.get(b) for f in forms):
+        forms.append({b: 2})
+    els = sorted({e for f in forms for e in f} | set(dil[1]))
+    forms = [{e: f.get(e, 0) for e in els} for f in forms] + [{e: dil[1].get(e, 0) for e in els}]
+    T = rnd.choice([500.0, 1000.0, 1500.0])
+    base = rnd.uniform(-40.0, 10.0)
+    spec = [species_spec(rnd, hill(f) if i < len(forms) - 1 else dil[0], f,
+                         base + rnd.uniform(0.0, 4.0), T, 'nasa') for i, f in enumerate(forms)]
+    feed = [rnd.choice([0.0, 1.0, 0.5]) for _ in forms[:-1]] + [rnd.choice([0.5, 2.0, 10.0])]
+    for e in els:
+        if not any(feed[i] > 0 and forms[i][e] for i in range(len(forms))):
+            feed[rnd.choice([i for i in range(len(forms)) if forms[i][e]])] += 1.0
+    perm = list(range(len(forms)))
+    rnd.shuffle(perm)
+    return {'cid': cid, 'kind': 'inert', 'elements': els, 'species': spec, 'feed': feed,
+            'points': [[T, rnd.choice([0.1, 1.0, 10.0])], [T, rnd.choice([0.01, 100.0])]], 'perm': perm}
+
+
+def classes_case(rnd, cid, k=0):
+    """Real molecules whose thermodynamics come from every class the docstring accepts
+    (pmutt.empirical Nasa / Nasa9 / Shomate, pmutt.statmech StatMech), mixed in one network."""
+    mols = rnd.sample(sorted(ASE_MOLECULES), 3 + k % 4)
+    els = [e for e in ('C', 'H', 'O', 'N') if any(ASE_MOLECULES[m][0].get(e) for m in mols)]
+    T = rnd.choice([400.0, 800.0, 1000.0, 1500.0, 2000.0])
+    base = rnd.uniform(-40.0, 0.0)
+    spec = []
+    for i, m in enumerate(mols):
+        f = {e: ASE_MOLECULES[m][0].get(e, 0) for e in els}
+        cls = THERMO_CLASSES[(k + i) % 4]
+        spec.append(species_spec(rnd, m, f, base + rnd.uniform(0.0, 10.0), T, cls, mol=m))
+    forms = [s['formula'] for s in spec]
+    feed = _feed(rnd, [{e: f.get(e, 0) for e in els} for f in forms], els, 'mixed')
+    perm = list(range(len(mols)))
+    rnd.shuffle(perm)
+    return {'cid': cid, 'kind': 'classes', 'elements': els, 'species': spec, 'feed': feed,
+            'points': [[T, rnd.choice([0.1, 1.0, 10.0])]], 'perm': perm}
 
 
 ALPHABET_NAMES = ['H2', 'O2', 'H2O', 'CO', 'CO2', 'CH4', 'C2H2', 'C6H6', 'O3', 'H']
 
 
-def tlc_case(rnd, cid, c):
+def tlc_case(rnd, cid, c, k=0):
     """A network generated by TLC (MC_EqCases.tla) dressed with NASA-7 species."""
     allels = ['C', 'H', 'O']
     els = [allels[j - 1] for j in c['els']]
@@ -212,9 +398,9 @@ def tlc_case(rnd, cid, c):
     spec = []
     for i, row in enumerate(c['E']):
         g = base + rnd.uniform(0.0, 8.0)
-        spec.append({'name': ALPHABET_NAMES[c['sp'][i] - 1],
-                     'formula': {e: int(v) for e, v in zip(els, row)},
-                     'a': nasa_coeffs(rnd, g, T)})
+        spec.append(species_spec(rnd, ALPHABET_NAMES[c['sp'][i] - 1],
+                                 {e: int(v) for e, v in zip(els, row)}, g, T, 'nasa',
+                                 phase='G' if k % 3 == 0 else 'any'))
     perm = list(range(len(spec)))
     rnd.shuffle(perm)
     return {'cid': cid, 'kind': 'tlc', 'elements': els, 'species': spec,
